@@ -1,5 +1,6 @@
 use crate::command::parser::error::ParseError;
 use crate::command::types::Command;
+use crate::shared::json::{MAX_JSON_NESTING, json_nesting_exceeds};
 use serde_json::Value;
 
 // Fast PEG-based parser for STORE commands (extracts JSON directly without tokenization)
@@ -32,7 +33,7 @@ peg::parser! {
 
         // Match balanced braces and capture everything including the braces
         rule balanced_braces() -> &'input str
-            = json:$( "{" (balanced_braces() / (!"}" [_]))* "}" ) {
+            = json:$( "{" (balanced_braces() / (!['{' | '}'] [_]))* "}" ) {
                 json
             }
 
@@ -52,8 +53,19 @@ peg::parser! {
 
 /// Fast PEG-based parser that extracts JSON directly from string
 pub fn parse_peg(input: &str) -> Result<Command, ParseError> {
+    // balanced_braces() recurses once per '{' (it does not know about strings),
+    // so bound the raw brace depth before running the grammar
+    if raw_brace_depth_exceeds(input, MAX_JSON_NESTING) {
+        return Err(nesting_error());
+    }
+
     let (event_type, context_id, json_str) = sneldb_store::store(input)
         .map_err(|e| ParseError::UnexpectedToken(format!("PEG parse error: {}", e)))?;
+
+    // sonic_rs recurses once per nested object/array and has no depth limit
+    if json_nesting_exceeds(json_str.as_bytes(), MAX_JSON_NESTING) {
+        return Err(nesting_error());
+    }
 
     // Parse JSON directly using sonic-rs (faster than serde_json)
     let json_value: Value =
@@ -64,4 +76,30 @@ pub fn parse_peg(input: &str) -> Result<Command, ParseError> {
         context_id: context_id.to_string(),
         payload: json_value,
     })
+}
+
+/// Returns true if `input` opens more than `max` nested `{` (strings are not recognised,
+/// exactly like the `balanced_braces` rule).
+fn raw_brace_depth_exceeds(input: &str, max: usize) -> bool {
+    let mut depth = 0usize;
+    for b in input.bytes() {
+        match b {
+            b'{' => {
+                depth += 1;
+                if depth > max {
+                    return true;
+                }
+            }
+            b'}' => depth = depth.saturating_sub(1),
+            _ => {}
+        }
+    }
+    false
+}
+
+fn nesting_error() -> ParseError {
+    ParseError::InvalidJson(format!(
+        "payload nesting deeper than {} levels",
+        MAX_JSON_NESTING
+    ))
 }
